@@ -248,6 +248,11 @@ def standalone(chk: Check, n):
                 if miss or (ac.has_count and not merged.has_count):
                     chk.fail("the merged request misses statistics a metric declared",
                              dict(input=inp, metric=name, missing=repr(miss)))
+        if not all(isinstance(k, tuple) and len(k) == 2 for k in res.keys()) or \
+                not isinstance(res, tt.experiment.ExperimentResults):
+            chk.fail("Experiment.analyze(all_variants=True) does not return the results keyed by (control, treatment) pair",
+                     dict(input=inp, type=type(res).__name__, keys=[repr(k) for k in res.keys()][:6]))
+            continue
         for (c, t), er in res.items():
             if list(er.keys()) != list(metrics.keys()):
                 chk.fail("metric order is not preserved", dict(input=inp, got=list(er.keys())))
